@@ -2,9 +2,12 @@ package h
 
 import (
 	"fmt"
+	"regexp"
 	"sort"
 	"strings"
+	"time"
 
+	"github.com/anishathalye/porcupine"
 	"github.com/titpetric/vuego/simrt"
 )
 
@@ -23,6 +26,9 @@ type c15File struct {
 }
 
 func genC15(seed uint64, run int, tier string) *RunSpec {
+	if run%4 == 3 {
+		return genC15Conc(seed, run, tier)
+	}
 	r := NewRand(seed, run)
 	g := NewGen(r)
 	// features that would make the fair-comparison rule bite (engine reads them once at construction) stay off
@@ -138,6 +144,9 @@ func freshFiles(files []FileSpec, cur map[string]int) []FileSpec {
 }
 
 func execC15(spec *RunSpec) *Result {
+	if spec.Family == "c15-conc" || spec.Family == "c11-via-c15-conc" {
+		return execC15Conc(spec)
+	}
 	res := &Result{Run: spec.Run}
 	simrt.ResetGlobals()
 	sfs := NewSimFS(spec.Files, nil, spec.Faults)
@@ -268,38 +277,11 @@ func execC15(spec *RunSpec) *Result {
 			ok = true
 		}
 		if !ok && len(c.amb) > 0 {
+			// Equal-mtime edit as the cache sees it (or a filesystem without mtimes): the freshness claim is
+			// void for this render, as the statement says. Nothing is demanded: the engine may even combine the
+			// front-matter of one version (read directly) with the cached DOM of the other.
 			res.addStat("equal_mtime_exclusions", 1)
-			// either version's output is accepted for files whose mtime cannot distinguish them
-			var names []string
-			for n := range c.amb {
-				names = append(names, n)
-			}
-			sort.Strings(names)
-			var rec func(k int, m map[string]int) bool
-			rec = func(k int, m map[string]int) bool {
-				if k == len(names) {
-					alt := cloneSpec(spec)
-					alt.Files = freshFiles(spec.Files, m)
-					alt.Faults = nil
-					return sameResult(o, runAlone(alt, c.op, refKernelWith(spec.Kernel)))
-				}
-				for _, u := range append([]int{c.cur[names[k]]}, c.amb[names[k]]...) {
-					m2 := map[string]int{}
-					for a, b := range m {
-						m2[a] = b
-					}
-					m2[names[k]] = u
-					if rec(k+1, m2) {
-						return true
-					}
-				}
-				return false
-			}
-			if len(names) <= 3 {
-				ok = rec(0, c.cur)
-			} else {
-				ok = true
-			}
+			ok = true
 		}
 		if !ok {
 			shape := c15Shape(spec, c.i, c.op, c.cur)
@@ -420,4 +402,224 @@ func c15Shape(spec *RunSpec, i int, op OpSpec, cur map[string]int) string {
 		}
 	}
 	return fmt.Sprintf("%s: rendered file %s%s", op.Entry, state, faultBefore)
+}
+
+// ---------------------------------------------------------------- concurrent configuration
+
+// genC15Conc: renderer tasks plus editor events at kernel-chosen steps (including between the Stat and the
+// ReadFile of one cache validation). Every file version prints a unique marker, so each render's output says
+// which version of page, component and layout it used. Equal-mtime edits are not generated: every version has
+// its own mtime; a file may be flipped back to an earlier version (its old content AND old mtime).
+func genC15Conc(seed uint64, run int, tier string) *RunSpec {
+	r := NewRand(seed, run)
+	spec := &RunSpec{Property: "C15", Family: "c15-conc", Seed: seed, Run: run}
+	base := int64(1_700_000_000_000_000_000)
+	mk := func(name, body string, nv int, off int64) FileSpec {
+		f := FileSpec{Name: name}
+		for v := 0; v < nv; v++ {
+			tag := fmt.Sprintf("[[%s.v%d]]", name, v)
+			f.Versions = append(f.Versions, FileVersion{Content: strings.Replace(body, "@@", tag, 1), MtimeNs: base + off + int64(v)*1_000_000_000})
+		}
+		return f
+	}
+	useLayout := r.Chance(40)
+	pageBody := "<main><h1>@@</h1><p>{{ name }}</p><template include=\"components/Part.vuego\" :label=\"title\"></template></main>"
+	if useLayout {
+		pageBody = "---\nlayout: frame\n---\n" + pageBody
+	}
+	nv := 2 + r.Intn(2)
+	spec.Files = []FileSpec{
+		mk("pages/live.vuego", pageBody, nv, 0),
+		mk("components/Part.vuego", "<section><b>@@</b><i>{{ label }}</i></section>", nv, 100),
+	}
+	if useLayout {
+		spec.Files = append(spec.Files, mk("layouts/frame.vuego", "<div class=\"frame\"><em>@@</em><div v-html=\"content\"></div></div>", nv, 200))
+	}
+	ntasks := 2 + r.Intn(3)
+	opsPer := 2 + r.Intn(2)
+	entries := []string{"Vue.Render", "Vue.Render", "Load.Render", "RenderFile"}
+	for t := 0; t < ntasks; t++ {
+		for k := 0; k < opsPer; k++ {
+			spec.Ops = append(spec.Ops, OpSpec{Kind: "render", Entry: Pick(r, entries), File: "pages/live.vuego", Task: t,
+				Data: DataSpec{Shape: "map", Tag: fmt.Sprintf("zz%dzz", len(spec.Ops)), Items: 1}, Writer: WriterSpec{FailAt: -1}, Reader: ReaderSpec{FailAfter: -1}})
+		}
+	}
+	horizon := 450 * ntasks * opsPer
+	ne := 1 + r.Intn(5)
+	cur := map[string]int{}
+	for i := 0; i < ne; i++ {
+		f := Pick(r, spec.Files)
+		to := r.Intn(len(f.Versions))
+		if to == cur[f.Name] {
+			to = (to + 1) % len(f.Versions)
+		}
+		cur[f.Name] = to
+		spec.Edits = append(spec.Edits, EditEvent{Step: 1 + int64(r.Intn(horizon)), File: f.Name, To: to})
+	}
+	sort.SliceStable(spec.Edits, func(i, j int) bool { return spec.Edits[i].Step < spec.Edits[j].Step })
+	spec.Warm = r.Chance(50)
+	spec.Engine = randomEngine(r, EngineSpec{})
+	spec.Engine.PathFill = 0
+	spec.Kernel = simrt.Config{Sched: randomSched(r, ntasks, opsPer), Map: simrt.MapSpec{Order: "asc"}, Pool: simrt.PoolSpec{Mode: "lifo", Seed: r.U64()}, Clock: simrt.ClockSpec{TickNs: 1000}}
+	spec.Note = fmt.Sprintf("tasks=%d ops/task=%d edits=%d layout=%v warm=%v", ntasks, opsPer, ne, useLayout, spec.Warm)
+	return spec
+}
+
+var markerRe = regexp.MustCompile(`\[\[([^\]]+)\.v(\d+)\]\]`)
+
+type regIn struct {
+	Write bool
+	File  string
+	V     int
+}
+
+func execC15Conc(spec *RunSpec) *Result {
+	res := &Result{Run: spec.Run}
+	cr := runConcurrent(spec, false)
+	rep := cr.rep
+	res.addStat("cases", int64(len(spec.Ops)))
+	res.addStat("steps", rep.Steps)
+	res.addStat("task_switches", int64(len(rep.Switches)))
+	res.Switches = rep.Switches
+	// history: edits are writes, every (render, file) marker is a read; stamped with the kernel's step counter
+	var ops []porcupine.Operation
+	final := map[string]int{}
+	initial := map[string]int{}
+	for _, f := range spec.Files {
+		initial[f.Name] = f.Initial
+		final[f.Name] = f.Initial
+	}
+	lastEdit := int64(0)
+	for _, e := range spec.Edits {
+		if e.Step > rep.Steps {
+			continue // never took effect while tasks ran
+		}
+		ops = append(ops, porcupine.Operation{ClientId: 0, Input: regIn{Write: true, File: e.File, V: e.To}, Call: e.Step*2 - 1, Output: e.To, Return: e.Step * 2})
+		final[e.File] = e.To
+		if e.Step > lastEdit {
+			lastEdit = e.Step
+		}
+	}
+	h := hashBytes([]byte(fmt.Sprint(rep.SchedHash)))
+	reads := 0
+	for i, op := range spec.Ops {
+		o := cr.outs[i]
+		h = hashBytes([]byte(fmt.Sprint(h)), o.Out, []byte(o.Err))
+		if o.Panic != "" || o.Overrun || o.Deadlock {
+			noteCrash(res, spec, i, op, o)
+			continue
+		}
+		if o.IsErr {
+			res.violate("C15", "unexpected-error", "render error while files change underneath ("+op.Entry+")", "op %d: %s", i, o.Err)
+			continue
+		}
+		seen := map[string]bool{}
+		for _, m := range markerRe.FindAllStringSubmatch(string(o.Out), -1) {
+			key := m[1] + "#" + m[2]
+			if seen[key] {
+				continue
+			}
+			seen[key] = true
+			v := 0
+			fmt.Sscanf(m[2], "%d", &v)
+			ops = append(ops, porcupine.Operation{ClientId: 1 + op.Task, Input: regIn{File: m[1]}, Call: cr.stamps[i][0] * 2, Output: v, Return: cr.stamps[i][1]*2 + 1})
+			reads++
+		}
+	}
+	res.addStat("history_reads", int64(reads))
+	model := porcupine.Model{
+		Partition: func(history []porcupine.Operation) [][]porcupine.Operation {
+			by := map[string][]porcupine.Operation{}
+			var names []string
+			for _, o := range history {
+				f := o.Input.(regIn).File
+				if _, ok := by[f]; !ok {
+					names = append(names, f)
+				}
+				by[f] = append(by[f], o)
+			}
+			sort.Strings(names)
+			var out [][]porcupine.Operation
+			for _, n := range names {
+				out = append(out, by[n])
+			}
+			return out
+		},
+		Init: func() interface{} { return -1 }, // -1: the initial version of whatever file this partition is about
+		Step: func(state, input, output interface{}) (bool, interface{}) {
+			in := input.(regIn)
+			st := state.(int)
+			if st == -1 {
+				st = initial[in.File]
+			}
+			if in.Write {
+				return true, in.V
+			}
+			return output.(int) == st, st
+		},
+		Equal: func(a, b interface{}) bool { return a == b },
+	}
+	if len(ops) > 0 && len(ops) <= 60 {
+		switch porcupine.CheckOperationsTimeout(model, ops, 20*time.Second) {
+		case porcupine.Illegal:
+			res.violate("C15", "stale-read", "a render used a file version that had been overwritten before the call began (concurrent edits)",
+				"the history of %d reads and %d edits is not linearizable against a register per file: some render returned a version that was no longer current at any moment of the call\n  %s", reads, len(ops)-reads, describeHistory(ops))
+		case porcupine.Unknown:
+			res.addStat("linearizability_inconclusive", 1)
+		default:
+			res.addStat("linearizable_histories", 1)
+		}
+	}
+	// bounded liveness of invalidation: after the last edit, one more render equals a fresh engine
+	simrt.Begin(spec.Kernel)
+	for k, entry := range []string{"Vue.Render", "Load.Render"} {
+		p := OpSpec{Kind: "render", Entry: entry, File: "pages/live.vuego", Data: DataSpec{Shape: "map", Tag: "zzpzz", Items: 1}, Writer: WriterSpec{FailAt: -1}, Reader: ReaderSpec{FailAfter: -1}}
+		for name, v := range final {
+			cr.fs.SetVersion(name, v)
+		}
+		cr.fs.DropEdits()
+		got := cr.eng.Exec(maxOps-3-k, p, nil)
+		fspec := cloneSpec(spec)
+		fspec.Files = freshFiles(spec.Files, final)
+		fspec.Edits = nil
+		simrt.End()
+		fresh := runAlone(fspec, p, refKernel())
+		simrt.Begin(spec.Kernel)
+		res.addStat("cases", 2)
+		if !sameResult(got, fresh) {
+			res.violate("C15", "stale-after-edits", "after concurrent edits stopped the engine still renders an overwritten version ("+entry+")",
+				"after the last edit a sequential %s of the page differs from a fresh engine on the final files:\n  long-lived: %s\n  fresh:      %s", entry, got, fresh)
+		}
+	}
+	simrt.End()
+	res.Cover = append(res.Cover, "conc/"+spec.Kernel.Sched.Strategy, fmt.Sprintf("conc/edits=%d", len(spec.Edits)), fmt.Sprintf("interleaving/%x", rep.SchedHash))
+	if res.Stats["history_reads"] > 0 && lastEdit > 0 {
+		res.Cover = append(res.Cover, "probe/edit-while-tasks-run")
+	}
+	for i := range spec.Ops {
+		if _, single := observedSnapshot(cr.fs, i); !single {
+			res.Cover = append(res.Cover, "probe/edit-landed-mid-render")
+			break
+		}
+	}
+	res.Digest = fmt.Sprintf("%x", h)
+	if spec.Run%80 == 3 {
+		res.Sample = map[string]any{"note": spec.Note, "edits": spec.Edits, "history_events": len(ops)}
+	}
+	return res
+}
+
+func describeHistory(ops []porcupine.Operation) string {
+	var parts []string
+	sorted := append([]porcupine.Operation(nil), ops...)
+	sort.Slice(sorted, func(i, j int) bool { return sorted[i].Call < sorted[j].Call })
+	for _, o := range sorted {
+		in := o.Input.(regIn)
+		if in.Write {
+			parts = append(parts, fmt.Sprintf("edit %s->v%d @%d", in.File, in.V, o.Return/2))
+		} else {
+			parts = append(parts, fmt.Sprintf("task%d read %s=v%d [%d,%d]", o.ClientId-1, in.File, o.Output.(int), o.Call/2, o.Return/2))
+		}
+	}
+	return strings.Join(parts, "; ")
 }
